@@ -1,1 +1,3 @@
+import TradingVerif.Props.C01
+import TradingVerif.Props.C05
 import TradingVerif.Props.C14
